@@ -12,13 +12,16 @@ package main
 // The live service is not disturbed (its jobs stay parked in the gates instance they entered).
 
 import (
+	"encoding/json"
 	"fmt"
 	"io"
 	"os"
 	"path/filepath"
 	"sort"
 	"strings"
+	"time"
 
+	"github.com/spq/pkappa2/internal/index"
 	"github.com/spq/pkappa2/internal/index/manager"
 )
 
@@ -126,6 +129,7 @@ func (h *harness) crashcheck(k int) (event, error) {
 		}
 	}
 	ev["cut"] = cut
+	ev["disk"] = describeDisk(copyBase, cut)
 
 	// the recovered service gets its own gates
 	oldGate := manager.VerifGate
@@ -158,6 +162,23 @@ func (h *harness) crashcheck(k int) (event, error) {
 		return ev, nil
 	}
 	ev["recovered"] = rh.canon(st0)
+	{
+		names := []string{}
+		for _, fn := range st0.Indexes {
+			names = append(names, filepath.Base(fn))
+		}
+		tags := []map[string]interface{}{}
+		for _, t := range rh.mgr.ListTags() {
+			def := t.Definition
+			for _, vt := range st0.Tags {
+				if vt.Name == t.Name {
+					def = vt.Definition // ListTags hides mark definitions
+				}
+			}
+			tags = append(tags, map[string]interface{}{"name": t.Name, "def": def, "color": t.Color, "convs": nn(t.Converters)})
+		}
+		ev["recovered_names"] = map[string]interface{}{"idx": names, "tags": tags}
+	}
 	// let the recovered service settle
 	rh.prev = st0
 	for n := 0; ; n++ {
@@ -264,4 +285,52 @@ func (h *harness) importBatchIfRunning(live manager.VerifState) []string {
 		return nil
 	}
 	return h.importBatch
+}
+
+// describeDisk lists what a restart will find: index files (complete unless it is the file that was
+// cut) and state files (with their Saved stamp and tags when they can be decoded).
+func describeDisk(base, cut string) map[string]interface{} {
+	idx := []map[string]interface{}{}
+	ents, _ := os.ReadDir(filepath.Join(base, "index"))
+	for _, e := range ents {
+		if !strings.HasSuffix(e.Name(), ".idx") {
+			continue
+		}
+		// "complete" = readable: the header (with the magic, written last) and all sections can be loaded
+		complete := false
+		if r, err := index.NewReader(filepath.Join(base, "index", e.Name())); err == nil {
+			complete = true
+			r.Close()
+		}
+		idx = append(idx, map[string]interface{}{"name": e.Name(), "complete": complete})
+	}
+	states := []map[string]interface{}{}
+	ents, _ = os.ReadDir(filepath.Join(base, "state"))
+	for _, e := range ents {
+		if !strings.HasSuffix(e.Name(), ".state.json") {
+			continue
+		}
+		rec := map[string]interface{}{"name": e.Name(), "parsable": false, "saved": 0, "tags": []interface{}{}}
+		data, err := os.ReadFile(filepath.Join(base, "state", e.Name()))
+		if err == nil {
+			var sf struct {
+				Saved time.Time
+				Tags  []struct {
+					Name, Definition, Color string
+					Converters              []string
+				}
+			}
+			if json.Unmarshal(data, &sf) == nil {
+				rec["parsable"] = true
+				rec["saved"] = sf.Saved.UnixNano()
+				tags := []interface{}{}
+				for _, t := range sf.Tags {
+					tags = append(tags, map[string]interface{}{"name": t.Name, "def": t.Definition, "color": t.Color, "convs": nn(t.Converters)})
+				}
+				rec["tags"] = tags
+			}
+		}
+		states = append(states, rec)
+	}
+	return map[string]interface{}{"idx": idx, "states": states}
 }
